@@ -71,3 +71,13 @@ def Not(x):
 
 def Implies(a, b):
     return Or(Not(a), b)
+
+
+def close_to(a, b, scale, tol=1e-9):
+    """|a-b| <= tol*scale as one (solver) condition; used where code and oracle legitimately fold binary64 constants
+    differently (DESIGN 2.7 rule 4)"""
+    from ..engine import symex as sx
+    d = a - b
+    if sx.is_sym(d) or sx.is_sym(scale):
+        return sx.sabs(d) <= tol * scale if sx.is_sym(d) else abs(d) <= tol * scale
+    return abs(d) <= tol * scale
